@@ -19,8 +19,13 @@ def image_shifts(H, ppp, nimg=1):
 def min_image_vectors(dR, H, ppp, nimg=1):
     """shortest image of each displacement (rows of dR) over the images {-nimg..nimg}^d of periodic axes.
     returns (vectors, distances, second_shortest_distance)"""
-    dR = np.atleast_2d(dR)
-    S = image_shifts(np.asarray(H, float), np.asarray(ppp), nimg)          # (M,d)
+    dR = np.atleast_2d(np.asarray(dR, float))
+    H = np.asarray(H, float)
+    # displacements between unwrapped coordinates may span many cells: bring each into the neighbourhood of the origin first (whole cell
+    # vectors along periodic axes), then search the surrounding images by brute force
+    f = np.linalg.solve(H.T, dR.T).T
+    dR = dR - (np.floor(f + 0.5) * np.asarray(ppp, float)[None, :]) @ H
+    S = image_shifts(H, np.asarray(ppp), nimg)          # (M,d)
     cand = dR[:, None, :] + S[None, :, :]                                    # (n,M,d)
     dist = np.linalg.norm(cand, axis=2)
     k = np.argmin(dist, axis=1)
